@@ -1,21 +1,1120 @@
-//! Monitor for property C18 (see /verif/DESIGN.md §6).
+//! Monitor for property C18 (see /verif/DESIGN.md §6): the Box language round-trips every
+//! expressible list; `format` is idempotent and parse-preserving; the parser is total.
+//!
+//! Oracles (all observe executions of the real `boxworks::lang` code):
+//!  * round trip: a generated list (harness-owned model, `model.rs`) is converted to `boxworks::ds`,
+//!    printed (per-element `Display`, list-level `to_box_lang`, `ds::VBox: Display`), parsed with
+//!    `lang::parse_horizontal_list`, converted back and compared with the model by our own deep
+//!    comparison;
+//!  * formatter: for every source text `s` whose syntax tree builds without errors,
+//!    `format(format(s)) == format(s)` and `parse(format(s))` equals `parse(s)` (same list, or the
+//!    same kinds of errors);
+//!  * totality: parse / format / error rendering never panic on any text, and every reported
+//!    error is located (labels with spans inside the text, on character boundaries).
+
+mod model;
+mod textgen;
+
+use boxworks::ds;
+use boxworks::lang as bwl;
+use boxworks::lang::convert::ToBoxLang;
+use model::*;
+use std::fmt::Write as _;
+use std::sync::OnceLock;
 use vcore::*;
 
 pub struct M;
 pub static MONITOR: M = M;
 
+const KF_FORMAT_ERRORS: &str = "C18-format-ignores-syntax-errors";
+const KF_BIG_RATIO: &str = "C18-glue-ratio-above-16384-unparseable";
+const KF_DEEP_NESTING: &str = "C18-deep-nesting-overflows-stack";
+
+// ------------------------------------------------------------------------------------------
+// observing the parser
+
+#[derive(Clone, Debug)]
+struct ErrInfo {
+    kind: String,
+    param: Option<String>,
+}
+
+enum Parsed {
+    Ok(Vec<ds::Horizontal>),
+    Errs(Vec<ErrInfo>),
+    Panicked,
+}
+
+fn clip(s: &str) -> String {
+    if s.len() <= 3000 {
+        return s.to_string();
+    }
+    let mut a = 2000;
+    while !s.is_char_boundary(a) {
+        a -= 1;
+    }
+    let mut b = s.len() - 600;
+    while !s.is_char_boundary(b) {
+        b += 1;
+    }
+    format!("{}\n...[{} bytes omitted]...\n{}", &s[..a], b - a, &s[b..])
+}
+
+fn variant_name(e: &bwl::Error) -> String {
+    let d = format!("{e:?}");
+    d.split(|c: char| !c.is_alphanumeric()).next().unwrap_or("").to_string()
+}
+
+/// Which known lexer crash (if any) a panic belongs to, and whether the text has what it takes.
+/// Returns (is a known site, trigger predicate holds).
+fn classify_panic(p: &PanicInfo, text: &str) -> (bool, bool) {
+    let in_lexer = p.repo_file.ends_with("boxworks/src/lang/lexer.rs") || p.file.ends_with("boxworks/src/lang/lexer.rs");
+    let in_common = p.file.ends_with("common/src/lib.rs");
+    let m = p.message.as_str();
+    if in_lexer && m.starts_with("called `Option::unwrap()` on a `None` value") {
+        return (true, textgen::has_integer_overflow(text));
+    }
+    if in_lexer && m.starts_with("called `Result::unwrap()` on an `Err` value: OverflowError") {
+        return (true, textgen::may_have_dimension_overflow(text));
+    }
+    if in_common && m.starts_with("attempt to multiply with overflow") {
+        return (true, textgen::has_unit_multiplication_overflow(text));
+    }
+    if in_lexer && m.starts_with("attempt to multiply with overflow") {
+        return (true, textgen::has_unicode_escape_overflow(text));
+    }
+    if in_lexer && m.contains("is not a char boundary") {
+        return (true, textgen::has_unicode_escape_without_brace(text));
+    }
+    (false, false)
+}
+
+fn report_panic(p: &PanicInfo, text: &str, what: &str, obs: &mut Obs, ctx: &Value) {
+    let detail = json!({"what": what, "text": clip(text), "context": ctx});
+    let (known_site, trigger) = classify_panic(p, text);
+    if known_site && !trigger && p.in_repo() {
+        // same place as a listed crash, but the text lacks what the listed crash needs: not the
+        // listed defect. Keep it out of reach of the known-finding prefix.
+        let mut d = detail;
+        if let Value::Object(m) = &mut d {
+            m.insert("panic".into(), json!({"file": p.file, "line": p.line, "message": p.message, "function": p.repo_function}));
+        }
+        obs.violation(format!("untriggered:{}", p.signature()), d);
+        return;
+    }
+    if known_site {
+        obs.count("panics_at_listed_lexer_crash_sites");
+    }
+    obs.repo_panic(p, detail);
+}
+
+/// Every error must be *located*: labels with spans inside the text on character boundaries;
+/// rendering the message/notes must not panic either.
+fn check_located(errs: &[bwl::Error], text: &str, obs: &mut Obs, ctx: &Value) {
+    for e in errs {
+        let r = catch(|| {
+            let labels: Vec<(usize, usize)> = e.labels().iter().map(|l| (l.span.start, l.span.end)).collect();
+            let _ = e.message();
+            let _ = e.notes();
+            labels
+        });
+        match r {
+            Err(p) => {
+                report_panic(&p, text, "rendering an error (labels/message/notes) panicked", obs, ctx);
+                return;
+            }
+            Ok(labels) => {
+                let bad = labels.is_empty()
+                    || labels.iter().any(|(s, t)| {
+                        s > t || *t > text.len() || !text.is_char_boundary(*s) || !text.is_char_boundary(*t)
+                    });
+                if bad {
+                    obs.violation(
+                        format!("error-not-located:{}", variant_name(e)),
+                        json!({"text": clip(text), "error": format!("{e:?}").chars().take(600).collect::<String>(),
+                               "labels": labels, "text_len": text.len(), "context": ctx}),
+                    );
+                    return;
+                }
+                obs.count("errors_with_valid_locations");
+            }
+        }
+    }
+}
+
+fn parse_text(text: &str, obs: &mut Obs, ctx: &Value) -> Parsed {
+    let r = catch(|| match bwl::parse_horizontal_list(text) {
+        Ok(v) => Ok(v),
+        Err(errs) => {
+            let infos: Vec<ErrInfo> = errs
+                .iter()
+                .map(|e| ErrInfo {
+                    kind: variant_name(e),
+                    param: match e {
+                        bwl::Error::IncorrectType { parameter_name, .. } => Some(parameter_name.to_string()),
+                        _ => None,
+                    },
+                })
+                .collect();
+            Err((infos, errs))
+        }
+    });
+    match r {
+        Err(p) => {
+            report_panic(&p, text, "lang::parse_horizontal_list panicked", obs, ctx);
+            Parsed::Panicked
+        }
+        Ok(Ok(v)) => Parsed::Ok(v),
+        Ok(Err((infos, errs))) => {
+            check_located(&errs, text, obs, ctx);
+            Parsed::Errs(infos)
+        }
+    }
+}
+
+/// Number of errors the lexer + syntax-tree layer reports for `text` (everything below the
+/// typed layer), found by building the explicit tree through the public CST API.
+fn cst_error_count(text: &str) -> Option<usize> {
+    catch(|| {
+        let errs: bwl::ErrorAccumulator = Default::default();
+        let tree = bwl::cst::Tree::build(bwl::cst::parse(text, errs.clone()));
+        drop(tree);
+        errs.len()
+    })
+    .ok()
+}
+
+fn kinds(e: &[ErrInfo]) -> Vec<&str> {
+    e.iter().map(|x| x.kind.as_str()).collect()
+}
+
+/// `format` oracle for one source text whose parse outcome is already known.
+fn check_format(text: &str, parsed: &Parsed, obs: &mut Obs, ctx: &Value) {
+    let f = match catch(|| bwl::format(text).map_err(|e| e.len())) {
+        Err(p) => {
+            report_panic(&p, text, "lang::format panicked", obs, ctx);
+            return;
+        }
+        Ok(Err(_n)) => {
+            obs.count("format_refused_with_errors");
+            return;
+        }
+        Ok(Ok(f)) => f,
+    };
+    let Some(cst_errs) = cst_error_count(text) else {
+        return; // the same panic was reported through format/parse already
+    };
+    if cst_errs > 0 {
+        // The text is not well-formed; format is supposed to return the errors (it calls
+        // errs.check()), but checks before the lazy parser has run. Attribute only with the
+        // trigger (syntax errors exist) and the exact deviation (it returned Ok).
+        if matches!(parsed, Parsed::Ok(_)) {
+            obs.count("syntax_errors_reported_by_tree_but_not_by_parse");
+        }
+        obs.known(
+            KF_FORMAT_ERRORS,
+            json!({"text": clip(text), "syntax_errors": cst_errs, "format_returned": clip(&f), "context": ctx}),
+        );
+        return;
+    }
+    obs.count("format_checked_on_syntactically_clean_text");
+    // idempotence
+    match catch(|| bwl::format(&f).map_err(|e| e.len())) {
+        Err(p) => {
+            report_panic(&p, &f, "lang::format panicked on its own output", obs, ctx);
+            return;
+        }
+        Ok(Err(n)) => {
+            obs.violation(
+                "format:own-output-rejected",
+                json!({"text": clip(text), "formatted": clip(&f), "errors": n, "context": ctx}),
+            );
+            return;
+        }
+        Ok(Ok(f2)) => {
+            if f2 != f {
+                let at = f.bytes().zip(f2.bytes()).position(|(a, b)| a != b).unwrap_or(f.len().min(f2.len()));
+                obs.violation(
+                    "format:not-idempotent",
+                    json!({"text": clip(text), "formatted_once": clip(&f), "formatted_twice": clip(&f2),
+                           "first_difference_at_byte": at, "context": ctx}),
+                );
+                return;
+            }
+            obs.count("format_idempotent");
+        }
+    }
+    // parse preservation
+    let pf = parse_text(&f, obs, ctx);
+    match (parsed, &pf) {
+        (Parsed::Panicked, _) | (_, Parsed::Panicked) => {}
+        (Parsed::Ok(a), Parsed::Ok(b)) => match (hlist_from_ds(a), hlist_from_ds(b)) {
+            (Ok(ma), Ok(mb)) => match hlist_diff(&ma, &mb, "list") {
+                None => obs.count("format_preserves_parsed_list"),
+                Some(d) => obs.violation(
+                    format!("format:changes-parsed-list at {}", diff_signature(&d)),
+                    json!({"text": clip(text), "formatted": clip(&f), "difference": d, "context": ctx}),
+                ),
+            },
+            (Err(e), _) | (_, Err(e)) => obs.violation(
+                format!("parser-produced-inexpressible-node:{e}"),
+                json!({"text": clip(text), "context": ctx}),
+            ),
+        },
+        (Parsed::Errs(a), Parsed::Errs(b)) => {
+            if kinds(a) == kinds(b) {
+                obs.count("format_preserves_error_kinds");
+            } else {
+                obs.violation(
+                    "format:changes-reported-errors",
+                    json!({"text": clip(text), "formatted": clip(&f), "errors_before": kinds(a), "errors_after": kinds(b), "context": ctx}),
+                );
+            }
+        }
+        (Parsed::Ok(_), Parsed::Errs(b)) => obs.violation(
+            "format:valid-text-becomes-invalid",
+            json!({"text": clip(text), "formatted": clip(&f), "errors_after": kinds(b), "context": ctx}),
+        ),
+        (Parsed::Errs(a), Parsed::Ok(_)) => obs.violation(
+            "format:invalid-text-becomes-valid",
+            json!({"text": clip(text), "formatted": clip(&f), "errors_before": kinds(a), "context": ctx}),
+        ),
+    }
+}
+
+/// Stable part of a difference description: the path without indices, without values.
+fn diff_signature(d: &str) -> String {
+    let path = d.split(": ").next().unwrap_or(d);
+    let mut out = String::new();
+    let mut skip = false;
+    for c in path.chars() {
+        match c {
+            '[' => skip = true,
+            ']' => skip = false,
+            _ if !skip => out.push(c),
+            _ => {}
+        }
+    }
+    // keep the innermost two components
+    let parts: Vec<&str> = out.split('.').collect();
+    let n = parts.len();
+    parts[n.saturating_sub(2)..].join(".")
+}
+
+// ------------------------------------------------------------------------------------------
+// printing
+
+/// The way boxworks-testing prints a list: one `Display` per element (characters not merged).
+fn print_per_element(list: &[ds::Horizontal]) -> String {
+    let mut s = String::new();
+    for e in list {
+        let _ = write!(&mut s, "{e}");
+    }
+    s
+}
+
+/// The way the `box` CLI prints a list: list-level conversion (runs of characters in one font
+/// become one `chars` call), then `Display` of each Box-language element.
+fn print_list_level(list: &[ds::Horizontal]) -> String {
+    let mut s = String::new();
+    for e in list.to_vec().to_box_lang() {
+        let _ = write!(&mut s, "{e}");
+    }
+    s
+}
+
+#[derive(Clone, Copy, PartialEq)]
+enum Printer {
+    PerElement,
+    ListLevel,
+}
+
+/// The deviation the known finding C18-glue-ratio-above-16384-unparseable predicts for a list
+/// containing `n` hboxes with such a ratio: the text is rejected with exactly `n` errors, all of
+/// them "wrong type for parameter glue_ratio".
+fn matches_big_ratio_deviation(errs: &[ErrInfo], n: u64) -> bool {
+    n > 0
+        && errs.len() as u64 == n
+        && errs
+            .iter()
+            .all(|e| e.kind == "IncorrectType" && e.param.as_deref() == Some("glue_ratio"))
+}
+
+/// print -> parse -> compare for a horizontal list. Returns the printed text when it round-tripped.
+fn check_round_trip(model: &[H], printer: Printer, obs: &mut Obs, ctx: &Value) -> Option<String> {
+    let list = hlist_to_ds(model);
+    let text = match catch(|| match printer {
+        Printer::PerElement => print_per_element(&list),
+        Printer::ListLevel => print_list_level(&list),
+    }) {
+        Ok(t) => t,
+        Err(p) => {
+            obs.repo_panic(&p, json!({"what": "printing a list panicked", "model": format!("{model:?}").chars().take(3000).collect::<String>(), "context": ctx}));
+            return None;
+        }
+    };
+    obs.add("rt_bytes_printed", text.len() as u64);
+    let mut census = Census::default();
+    census.hlist(model, 0);
+    match parse_text(&text, obs, ctx) {
+        Parsed::Panicked => None,
+        Parsed::Errs(errs) => {
+            if matches_big_ratio_deviation(&errs, census.big_ratio_boxes) {
+                obs.known(
+                    KF_BIG_RATIO,
+                    json!({"text": clip(&text), "boxes_with_ratio_above_limit": census.big_ratio_boxes, "errors": kinds(&errs), "context": ctx}),
+                );
+            } else {
+                obs.violation(
+                    format!("roundtrip:printed-list-rejected {}", errs.first().map(|e| e.kind.as_str()).unwrap_or("")),
+                    json!({"text": clip(&text), "errors": errs.iter().map(|e| json!([e.kind, e.param])).collect::<Vec<_>>(),
+                           "boxes_with_ratio_above_limit": census.big_ratio_boxes, "context": ctx}),
+                );
+            }
+            None
+        }
+        Parsed::Ok(got) => {
+            if census.big_ratio_boxes > 0 {
+                // the listed defect is gone (or changed): fall through to the normal comparison
+                obs.count("big_ratio_lists_accepted");
+            }
+            match hlist_from_ds(&got) {
+                Err(e) => {
+                    obs.violation(
+                        format!("parser-produced-inexpressible-node:{e}"),
+                        json!({"text": clip(&text), "context": ctx}),
+                    );
+                    None
+                }
+                Ok(back) => match hlist_diff(model, &back, "list") {
+                    None => {
+                        obs.count("rt_lists_round_tripped");
+                        obs.add("rt_nodes_round_tripped", census.nodes);
+                        Some(text)
+                    }
+                    Some(d) => {
+                        obs.violation(
+                            format!("roundtrip:parsed-list-differs at {}", diff_signature(&d)),
+                            json!({"difference (generated vs parsed back)": d, "text": clip(&text),
+                                   "printer": if printer == Printer::PerElement { "per-element Display" } else { "list-level to_box_lang" },
+                                   "context": ctx}),
+                        );
+                        None
+                    }
+                },
+            }
+        }
+    }
+}
+
+fn record_census(c: &Census, obs: &mut Obs) {
+    for (k, n) in &c.kinds {
+        obs.add(&format!("gen_nodes:{k}"), *n);
+    }
+    obs.add("gen_chars_needing_escape", c.chars_needing_escape);
+    obs.add("gen_chars_non_ascii", c.chars_non_ascii);
+    obs.add("gen_extreme_dimens_within_2sp_of_limit", c.extreme_dimens);
+    obs.add("gen_running_rule_dimens", c.running_dims);
+    obs.add("gen_glue_order_fil", c.infinite_orders[1]);
+    obs.add("gen_glue_order_fill", c.infinite_orders[2]);
+    obs.add("gen_glue_order_filll", c.infinite_orders[3]);
+    obs.add("gen_hboxes_ratio_above_parse_limit", c.big_ratio_boxes);
+    obs.add("gen_hboxes_negative_ratio_sign_not_printed", c.negative_ratio_boxes);
+    obs.add("gen_adjacent_chars_with_font_change", c.font_changes_between_adjacent_chars);
+    if c.max_depth >= 3 {
+        obs.count("gen_lists_nesting_depth_ge_3");
+    }
+}
+
+// ------------------------------------------------------------------------------------------
+// golden files (seed pool and calibration ground truth)
+
+struct Golden {
+    name: String,
+    text: String,
+}
+
+fn golden_dirs() -> Vec<std::path::PathBuf> {
+    vec![
+        repo_dir().join("crates/boxworks-knuthplass/testdata"),
+        repo_dir().join("crates/boxworks-bin/tests"),
+    ]
+}
+
+fn goldens() -> &'static Vec<Golden> {
+    static G: OnceLock<Vec<Golden>> = OnceLock::new();
+    G.get_or_init(|| {
+        let mut out = vec![];
+        for dir in golden_dirs() {
+            let mut files: Vec<std::path::PathBuf> = std::fs::read_dir(&dir)
+                .map(|rd| rd.filter_map(|e| e.ok().map(|e| e.path())).collect())
+                .unwrap_or_default();
+            files.sort();
+            for f in files {
+                if f.extension().map(|x| x == "txt").unwrap_or(false) {
+                    if let Ok(text) = std::fs::read_to_string(&f) {
+                        out.push(Golden {
+                            name: f.file_name().map(|n| n.to_string_lossy().to_string()).unwrap_or_default(),
+                            text,
+                        });
+                    }
+                }
+            }
+        }
+        out
+    })
+}
+
+/// Top-level elements of the golden files that are written in the Box language, as model values
+/// (at most 60 per file, to keep the pool balanced).
+fn golden_fragments() -> &'static Vec<H> {
+    static F: OnceLock<Vec<H>> = OnceLock::new();
+    F.get_or_init(|| {
+        let mut out = vec![];
+        for g in goldens() {
+            if !g.text.trim_start().starts_with('#') && !g.text.contains("hbox(") {
+                continue;
+            }
+            if let Ok(Ok(list)) = catch(|| bwl::parse_horizontal_list(&g.text).map_err(|e| e.len())) {
+                if let Ok(m) = hlist_from_ds(&list) {
+                    let step = (m.len() / 60).max(1);
+                    out.extend(m.into_iter().step_by(step).take(60));
+                }
+            }
+        }
+        out
+    })
+}
+
+fn shrink_fragment(rng: &mut Rng, h: &H) -> H {
+    // golden boxes hold ~100 nodes; keep a random window so that mutated texts stay small
+    match h {
+        H::HBox(b) if b.list.len() > 12 => {
+            let mut b2 = (**b).clone();
+            let start = rng.usize_below(b.list.len() - 8);
+            let len = rng.range_usize(1, 10);
+            b2.list = b.list[start..(start + len).min(b.list.len())].to_vec();
+            H::HBox(Box::new(b2))
+        }
+        H::VBox(b) if !b.list.is_empty() => {
+            let mut b2 = (**b).clone();
+            let i = rng.usize_below(b.list.len());
+            b2.list = vec![match &b.list[i] {
+                V::HBox(hb) if hb.list.len() > 12 => {
+                    let mut hb2 = (**hb).clone();
+                    let start = rng.usize_below(hb.list.len() - 8);
+                    hb2.list = hb.list[start..start + 8].to_vec();
+                    V::HBox(Box::new(hb2))
+                }
+                other => other.clone(),
+            }];
+            H::VBox(Box::new(b2))
+        }
+        other => other.clone(),
+    }
+}
+
+/// A valid program text: printed generated list, or printed golden fragments.
+fn seed_text(rng: &mut Rng) -> (String, Vec<H>) {
+    let frags = golden_fragments();
+    let model: Vec<H> = if !frags.is_empty() && rng.chance(1, 3) {
+        (0..rng.range_usize(1, 2))
+            .map(|_| {
+                let f = &frags[rng.usize_below(frags.len())];
+                shrink_fragment(rng, f)
+            })
+            .collect()
+    } else {
+        let mut g = Gen::new(rng);
+        g.big_ratio_per_mille = 0;
+        g.budget = g.budget.min(25);
+        g.hlist(0)
+    };
+    let list = hlist_to_ds(&model);
+    let text = catch(|| print_list_level(&list)).unwrap_or_default();
+    (text, model)
+}
+
+// ------------------------------------------------------------------------------------------
+// cases
+
+impl M {
+    fn case_roundtrip(&self, rng: &mut Rng, obs: &mut Obs) {
+        let vertical = rng.chance(1, 4);
+        let ctx = json!({"phase": "roundtrip", "vertical": vertical});
+        if vertical {
+            let mut g = Gen::new(rng);
+            let vb = VB {
+                dims: [g.dimen(), g.dimen(), g.dimen(), g.dimen()],
+                list: g.vlist(1),
+            };
+            let mut census = Census::default();
+            census.vlist(&vb.list, 1);
+            record_census(&census, obs);
+            obs.count("rt_vertical_lists");
+            // E: Display of ds::VBox
+            let dsv = vb_to_ds(&vb);
+            let text = match catch(|| format!("{dsv}")) {
+                Ok(t) => t,
+                Err(p) => {
+                    obs.repo_panic(&p, json!({"what": "Display of ds::VBox panicked", "context": ctx}));
+                    return;
+                }
+            };
+            let model = vec![H::VBox(Box::new(vb))];
+            obs.nontrivial(&model);
+            // the VBox Display must say the same as printing the element
+            match parse_text(&text, obs, &ctx) {
+                Parsed::Ok(got) => match hlist_from_ds(&got) {
+                    Ok(back) => match hlist_diff(&model, &back, "list") {
+                        None => {
+                            obs.count("rt_lists_round_tripped");
+                            obs.add("rt_nodes_round_tripped", census.nodes + 1);
+                        }
+                        Some(d) => obs.violation(
+                            format!("roundtrip:parsed-list-differs at {}", diff_signature(&d)),
+                            json!({"difference (generated vs parsed back)": d, "text": clip(&text), "printer": "ds::VBox Display", "context": ctx}),
+                        ),
+                    },
+                    Err(e) => obs.violation(format!("parser-produced-inexpressible-node:{e}"), json!({"text": clip(&text)})),
+                },
+                Parsed::Errs(errs) => {
+                    if matches_big_ratio_deviation(&errs, census.big_ratio_boxes) {
+                        obs.known(KF_BIG_RATIO, json!({"text": clip(&text), "errors": kinds(&errs), "context": ctx}));
+                    } else {
+                        obs.violation(
+                            format!("roundtrip:printed-list-rejected {}", errs.first().map(|e| e.kind.as_str()).unwrap_or("")),
+                            json!({"text": clip(&text), "errors": kinds(&errs), "printer": "ds::VBox Display", "context": ctx}),
+                        );
+                    }
+                }
+                Parsed::Panicked => {}
+            }
+            check_round_trip(&model, Printer::PerElement, obs, &ctx);
+            if obs.wants_sample() {
+                obs.sample(json!({"kind": "vbox", "text": clip(&text), "nodes": census.nodes}));
+            }
+            return;
+        }
+        let mut g = Gen::new(rng);
+        let model = g.hlist(0);
+        let mut census = Census::default();
+        census.hlist(&model, 0);
+        record_census(&census, obs);
+        obs.count("rt_horizontal_lists");
+        if !model.is_empty() {
+            obs.nontrivial(&model);
+        }
+        let t1 = check_round_trip(&model, Printer::ListLevel, obs, &ctx);
+        let t2 = check_round_trip(&model, Printer::PerElement, obs, &ctx);
+        // the printer's own output is source text too: the formatter properties apply to it
+        if let Some(t) = &t1 {
+            if rng.chance(1, 2) {
+                let parsed = Parsed::Ok(hlist_to_ds(&model));
+                check_format(t, &parsed, obs, &ctx);
+                if let Ok(Ok(f)) = catch(|| bwl::format(t).map_err(|e| e.len())) {
+                    if &f == t {
+                        obs.count("format_of_printer_output_is_identity");
+                    } else {
+                        obs.count("format_of_printer_output_differs_from_it");
+                    }
+                }
+            }
+        }
+        if obs.wants_sample() {
+            obs.sample(json!({"kind": "hlist", "nodes": census.nodes, "depth": census.max_depth,
+                              "list_level_text": t1.as_deref().map(clip), "per_element_round_tripped": t2.is_some()}));
+        }
+    }
+
+    fn case_relayout(&self, rng: &mut Rng, obs: &mut Obs) {
+        let ctx = json!({"phase": "relayout"});
+        let (text, model) = seed_text(rng);
+        let with_comments = rng.chance(2, 3);
+        let s = textgen::relayout(rng, &text, with_comments);
+        obs.nontrivial(&s);
+        let parsed = parse_text(&s, obs, &ctx);
+        match &parsed {
+            Parsed::Ok(v) => {
+                obs.count("relayout_texts_valid");
+                // informational: layout and comments are not supposed to matter to the parser
+                match hlist_from_ds(v) {
+                    Ok(back) if hlist_diff(&model, &back, "list").is_none() => obs.count("relayout_parse_equals_original_list"),
+                    _ => obs.count("relayout_parse_differs_from_original_list"),
+                }
+            }
+            Parsed::Errs(_) => obs.count("relayout_texts_rejected"),
+            Parsed::Panicked => {}
+        }
+        check_format(&s, &parsed, obs, &ctx);
+        if obs.wants_sample() {
+            obs.sample(json!({"relaid_out": clip(&s), "formatted": catch(|| bwl::format(&s).ok()).ok().flatten().as_deref().map(clip)}));
+        }
+    }
+
+    fn case_text(&self, phase: &str, rng: &mut Rng, obs: &mut Obs) {
+        let ctx = json!({"phase": phase});
+        let text = match phase {
+            "mutated" => {
+                let (a, _) = seed_text(rng);
+                let (b, _) = seed_text(rng);
+                let wild = rng.chance(1, 25);
+                let base = if rng.chance(1, 4) {
+                    let c = rng.chance(1, 2);
+                    textgen::relayout(rng, &a, c)
+                } else {
+                    a
+                };
+                textgen::mutate(rng, &base, &b, wild)
+            }
+            _ => {
+                let wild = rng.chance(1, 25);
+                match rng.below(3) {
+                    0 => textgen::soup(rng),
+                    _ => textgen::program(rng, wild),
+                }
+            }
+        };
+        obs.add("text_bytes_fed", text.len() as u64);
+        let parsed = parse_text(&text, obs, &ctx);
+        match &parsed {
+            Parsed::Ok(v) => {
+                obs.count("text_parsed_ok");
+                if !v.is_empty() {
+                    obs.count("text_parsed_ok_nonempty");
+                }
+            }
+            Parsed::Errs(e) => {
+                obs.count("text_parsed_with_errors");
+                obs.add("text_errors_reported", e.len() as u64);
+                for k in e.iter().take(4) {
+                    obs.count(&format!("error_kind:{}", k.kind));
+                }
+            }
+            Parsed::Panicked => obs.count("text_panicked"),
+        }
+        check_format(&text, &parsed, obs, &ctx);
+        if !text.trim().is_empty() {
+            obs.nontrivial(&text);
+        }
+        if obs.wants_sample() {
+            obs.sample(json!({"text": clip(&text), "outcome": match &parsed {
+                Parsed::Ok(v) => format!("list of {} elements", v.len()),
+                Parsed::Errs(e) => format!("errors {:?}", kinds(e)),
+                Parsed::Panicked => "panic".into(),
+            }}));
+        }
+    }
+
+    fn case_golden(&self, idx: u64, obs: &mut Obs) {
+        let g = &goldens()[idx as usize];
+        let ctx = json!({"phase": "golden", "file": g.name});
+        let parsed = parse_text(&g.text, obs, &ctx);
+        match &parsed {
+            Parsed::Ok(list) => {
+                obs.count("golden_files_in_box_language");
+                match hlist_from_ds(list) {
+                    Ok(model) => {
+                        let mut census = Census::default();
+                        census.hlist(&model, 0);
+                        obs.add("golden_nodes", census.nodes);
+                        // print what was parsed and parse it again: must be the same list
+                        if check_round_trip(&model, Printer::ListLevel, obs, &ctx).is_some()
+                            && check_round_trip(&model, Printer::PerElement, obs, &ctx).is_some()
+                        {
+                            obs.count("golden_files_round_tripped");
+                        }
+                    }
+                    Err(e) => obs.violation(format!("parser-produced-inexpressible-node:{e}"), json!({"file": g.name})),
+                }
+            }
+            Parsed::Errs(_) => obs.count("golden_dir_files_not_box_language"),
+            Parsed::Panicked => {}
+        }
+        check_format(&g.text, &parsed, obs, &ctx);
+        obs.nontrivial_by_construction(1);
+    }
+
+    fn case_known(&self, idx: u64, obs: &mut Obs) {
+        obs.nontrivial_by_construction(1);
+        let ctx = json!({"phase": "known", "reproducer": idx});
+        // texts that crash the lexer today (each is a listed finding keyed by its panic site)
+        const CRASHERS: &[&str] = &[
+            "penalty(99999999999)",
+            "penalty(-2147483648)",
+            "kern(16384pt)",
+            "kern(40000sp)",
+            "chars(\"\\u{fffffffff}\")",
+            "chars(\"\\u\u{e9}x\")",
+        ];
+        if (idx as usize) < CRASHERS.len() {
+            let text = CRASHERS[idx as usize];
+            let parsed = parse_text(text, obs, &ctx);
+            obs.count(match parsed {
+                Parsed::Panicked => "known_crasher_still_crashes",
+                _ => "known_crasher_handled",
+            });
+            check_format(text, &parsed, obs, &ctx);
+            return;
+        }
+        match idx as usize - CRASHERS.len() {
+            0 => {
+                // format() returns Ok for text with syntax errors, and the result parses to something else
+                let text = "kern(.5pt)";
+                let parsed = parse_text(text, obs, &ctx);
+                check_format(text, &parsed, obs, &ctx);
+            }
+            1 => {
+                // hpack-like: excess 1pt over 1sp of stretch
+                let model = vec![H::HBox(Box::new(HB {
+                    dims: [0, 65536, 0, 0],
+                    ratio: (65536, 1),
+                    order: 0,
+                    list: vec![],
+                }))];
+                check_round_trip(&model, Printer::PerElement, obs, &ctx);
+            }
+            2 => {
+                // 20000 nested hboxes (280 kB of text) on a default 8 MiB stack, in a child process
+                deep_nesting_probe(obs);
+            }
+            3 => {
+                // informational: the double quote is outside the property's quantifier ("which the
+                // string syntax cannot express") but the lexer and printer do handle `\"`
+                let model = vec![
+                    H::Char { c: '"', font: 0 },
+                    H::Lig(Lig {
+                        c: '"',
+                        font: 1,
+                        orig: "a\"b".into(),
+                        left: false,
+                        right: true,
+                    }),
+                ];
+                let list = hlist_to_ds(&model);
+                let ok = catch(|| {
+                    let t = print_list_level(&list);
+                    bwl::parse_horizontal_list(&t).ok().and_then(|v| hlist_from_ds(&v).ok())
+                })
+                .ok()
+                .flatten()
+                .map(|b| hlist_diff(&model, &b, "list").is_none())
+                .unwrap_or(false);
+                obs.count(if ok {
+                    "info_double_quote_round_trips"
+                } else {
+                    "info_double_quote_does_not_round_trip"
+                });
+            }
+            _ => {}
+        }
+    }
+
+    fn case_deepnest_child(&self) {
+        // runs in a child process started by deep_nesting_probe
+        let mut s = String::new();
+        for _ in 0..20_000 {
+            s.push_str("hbox(content=[");
+        }
+        for _ in 0..20_000 {
+            s.push_str("])");
+        }
+        let h = std::thread::Builder::new()
+            .stack_size(8 << 20)
+            .spawn(move || {
+                let r = bwl::parse_horizontal_list(&s);
+                r.map(|v| v.len()).map_err(|e| e.len())
+            })
+            .expect("spawn");
+        let r = h.join();
+        println!("DEEPNEST-SURVIVED {r:?}");
+    }
+}
+
+const KNOWN_CASES: u64 = 10;
+
+fn deep_nesting_probe(obs: &mut Obs) {
+    let exe = match std::env::current_exe() {
+        Ok(e) => e,
+        Err(e) => {
+            obs.inconclusive(format!("deep nesting probe: current_exe failed: {e}"));
+            return;
+        }
+    };
+    let out = std::process::Command::new(exe)
+        .args(["--case", "deepnest-child", "0"])
+        .stdin(std::process::Stdio::null())
+        .output();
+    match out {
+        Err(e) => obs.inconclusive(format!("deep nesting probe: cannot start child: {e}")),
+        Ok(o) => {
+            use std::os::unix::process::ExitStatusExt;
+            let stdout = String::from_utf8_lossy(&o.stdout);
+            let stderr = String::from_utf8_lossy(&o.stderr);
+            if stdout.contains("DEEPNEST-SURVIVED") {
+                obs.count("deep_nesting_survived");
+            } else if o.status.signal().is_some() && stderr.contains("overflowed its stack") {
+                obs.known(
+                    KF_DEEP_NESTING,
+                    json!({"text": "\"hbox(content=[\" x 20000 + \"])\" x 20000", "stack": "8 MiB", "child_status": format!("{:?}", o.status),
+                           "stderr": stderr.chars().take(300).collect::<String>()}),
+                );
+            } else {
+                obs.inconclusive(format!(
+                    "deep nesting probe: child ended with {:?} without verdict; stderr: {}",
+                    o.status,
+                    stderr.chars().take(200).collect::<String>()
+                ));
+            }
+        }
+    }
+}
+
 impl Monitor for M {
     fn id(&self) -> &'static str {
         "C18"
     }
+
     fn rule(&self) -> String {
-        "not built yet".into()
+        "roundtrip: generated horizontal lists (3/4) and vboxes (1/4) of up to ~150 nodes, nesting depth <= 6, all 13 \
+         horizontal / 9 vertical / 6 discretionary node kinds; characters: any Unicode scalar except the double quote \
+         (40% from a pool of escapes, controls, combining marks, separators, U+10FFFF...), runs in one font and font changes; \
+         dimensions biased to 0, ±1, ±(2^30-1), powers of two; all glue orders; running rule dimensions; fonts/counts up to \
+         2^31-1; penalties in (-2^31, 2^31); glue ratios num/den incl. negative, 0/0 and (1%) above the parse limit. Each list \
+         is printed two ways (list-level, per element); non-trivial = non-empty, distinct by model value. relayout: printed \
+         valid programs with all inter-token whitespace replaced by random whitespace/comments/optional commas. mutated: 1-3 \
+         character-level mutations (delete, insert from a token alphabet, cut, duplicate, truncate, number replacement, \
+         splice, swap) of printed generated lists and printed fragments of the repository's golden files. soup: random \
+         programs from the function/keyword/unit vocabulary and unstructured token soup. Texts distinct by content. golden: \
+         every .txt under boxworks-knuthplass/testdata and boxworks-bin/tests."
+            .into()
     }
+
     fn assumptions(&self) -> Vec<String> {
-        vec![]
+        vec![
+            "Expressible domain as in DESIGN §6 C18 G: glue/kern kind Normal, no whatsits, empty marks, vbox without glue set, |dimension| <= 2^30-1 or the running sentinel, penalties != -2^31, fonts/replace counts/float penalties < 2^31.".into(),
+            "Glue ratios are compared by the value a reader of the printed form gets (|num/den| in units of 2^-16 capped at 20000, one f32 ulp tolerance): the sign of a ratio is not printed and GlueRatio's own PartialEq ignores it too; counted in gen_hboxes_negative_ratio_sign_not_printed.".into(),
+            "format's idempotence and parse preservation are required for texts whose syntax tree builds without errors; for texts with syntax errors format is expected to return the errors (see the known finding).".into(),
+            "When both parse(s) and parse(format(s)) fail, the sequences of error kinds must be equal (spans legitimately move).".into(),
+            "Nesting depth in generated texts stays far below what an 8 MiB stack allows; the recursion-depth crash is probed separately in a child process.".into(),
+            "The double quote is excluded from generated strings (quantifier); one informational probe reports whether it round-trips.".into(),
+        ]
     }
-    fn phases(&self, _tier: Tier) -> Vec<Phase> {
-        vec![]
+
+    fn phases(&self, tier: Tier) -> Vec<Phase> {
+        vec![
+            Phase::new("known", KNOWN_CASES).batch(1),
+            Phase::new("golden", goldens().len() as u64)
+                .batch(1)
+                .exhaustive("every .txt file under crates/boxworks-knuthplass/testdata and crates/boxworks-bin/tests"),
+            Phase::new("roundtrip", tier.pick(100_000, 10_000_000)).batch(128),
+            Phase::new("relayout", tier.pick(60_000, 3_000_000)).batch(128),
+            Phase::new("mutated", tier.pick(140_000, 10_000_000)).batch(128),
+            Phase::new("soup", tier.pick(100_000, 7_000_000)).batch(128),
+        ]
     }
-    fn run_case(&self, _phase: &str, _idx: u64, _rng: &mut Rng, _obs: &mut Obs) {}
+
+    fn floors(&self, tier: Tier) -> Vec<(&'static str, u64)> {
+        let k = tier.pick(1, 50);
+        vec![
+            ("golden_files_in_box_language", 30),
+            ("golden_files_round_tripped", 30),
+            ("golden_nodes", 100_000),
+            ("rt_lists_round_tripped", 150_000 * k),
+            ("rt_nodes_round_tripped", 3_000_000 * k),
+            ("rt_vertical_lists", 15_000 * k),
+            ("gen_nodes:char", 500_000 * k),
+            ("gen_nodes:glue", 100_000 * k),
+            ("gen_nodes:kern", 50_000 * k),
+            ("gen_nodes:penalty", 50_000 * k),
+            ("gen_nodes:rule", 50_000 * k),
+            ("gen_nodes:lig", 30_000 * k),
+            ("gen_nodes:disc", 10_000 * k),
+            ("gen_nodes:math", 20_000 * k),
+            ("gen_nodes:mark", 20_000 * k),
+            ("gen_nodes:hbox", 50_000 * k),
+            ("gen_nodes:vbox", 15_000 * k),
+            ("gen_nodes:insertion", 10_000 * k),
+            ("gen_nodes:adjust", 5_000 * k),
+            ("gen_chars_needing_escape", 100_000 * k),
+            ("gen_chars_non_ascii", 100_000 * k),
+            ("gen_extreme_dimens_within_2sp_of_limit", 50_000 * k),
+            ("gen_running_rule_dimens", 30_000 * k),
+            ("gen_glue_order_fil", 20_000 * k),
+            ("gen_glue_order_fill", 20_000 * k),
+            ("gen_glue_order_filll", 20_000 * k),
+            ("gen_adjacent_chars_with_font_change", 20_000 * k),
+            ("gen_lists_nesting_depth_ge_3", 5_000 * k),
+            ("format_checked_on_syntactically_clean_text", 100_000 * k),
+            ("format_idempotent", 100_000 * k),
+            ("format_preserves_parsed_list", 60_000 * k),
+            ("format_preserves_error_kinds", 10_000 * k),
+            ("relayout_texts_valid", 40_000 * k),
+            ("text_parsed_with_errors", 100_000 * k),
+            ("text_parsed_ok_nonempty", 10_000 * k),
+            ("errors_with_valid_locations", 200_000 * k),
+        ]
+    }
+
+    fn calibrate(&self, obs: &mut Obs) {
+        calibrate(obs);
+    }
+
+    fn run_case(&self, phase: &str, idx: u64, rng: &mut Rng, obs: &mut Obs) {
+        match phase {
+            "known" => self.case_known(idx, obs),
+            "golden" => self.case_golden(idx, obs),
+            "roundtrip" => self.case_roundtrip(rng, obs),
+            "relayout" => self.case_relayout(rng, obs),
+            "mutated" | "soup" => self.case_text(phase, rng, obs),
+            "deepnest-child" => self.case_deepnest_child(),
+            other => obs.inconclusive(format!("unknown phase {other}")),
+        }
+    }
+}
+
+// ------------------------------------------------------------------------------------------
+// Calibration: the harness-owned pieces (model conversion + deep comparison, the glue-ratio
+// reading, the text re-layout) are run against the repository's golden files, which were produced
+// from real TeX output.
+
+/// TeX §102 round_decimals: the scaled value of .d1 d2 ... dk.
+fn round_decimals(digits: &[u8]) -> i64 {
+    let mut a: i64 = 0;
+    for d in digits.iter().rev() {
+        a = (a + (*d as i64) * 131072) / 10;
+    }
+    (a + 1) / 2
+}
+
+/// "12.345" -> units of 2^-16 (our own reading of a printed glue ratio).
+fn decimal_units(s: &str) -> Option<i64> {
+    let (i, f) = s.split_once('.').unwrap_or((s, ""));
+    let int: i64 = i.parse().ok()?;
+    let digits: Vec<u8> = f.bytes().map(|b| b.wrapping_sub(b'0')).collect();
+    if digits.iter().any(|d| *d > 9) {
+        return None;
+    }
+    Some(int * 65536 + round_decimals(&digits[..digits.len().min(17)]))
+}
+
+fn collect_ratios(l: &[H], out: &mut Vec<(i32, i32)>) {
+    for h in l {
+        match h {
+            H::HBox(b) => {
+                out.push(b.ratio);
+                collect_ratios(&b.list, out);
+            }
+            H::VBox(b) => collect_ratios_v(&b.list, out),
+            _ => {}
+        }
+    }
+}
+
+fn collect_ratios_v(l: &[V], out: &mut Vec<(i32, i32)>) {
+    for v in l {
+        match v {
+            V::HBox(b) => {
+                out.push(b.ratio);
+                collect_ratios(&b.list, out);
+            }
+            V::VBox(b) => collect_ratios_v(&b.list, out),
+            _ => {}
+        }
+    }
+}
+
+fn calibrate(obs: &mut Obs) {
+    let gs = goldens();
+    if gs.is_empty() {
+        obs.inconclusive("no golden files found");
+        return;
+    }
+    let mut rng = Rng::new(0xC18);
+    for g in gs {
+        let looks_box = g.text.contains("hbox(") || g.text.contains("vbox(");
+        if !looks_box {
+            continue;
+        }
+        let Ok(Ok(list)) = catch(|| bwl::parse_horizontal_list(&g.text).map_err(|e| e.len())) else {
+            obs.inconclusive(format!("golden file {} (Box language) does not parse", g.name));
+            continue;
+        };
+        obs.count("calibration_goldens_parsed");
+        // 1. model conversion is lossless on real data: ds -> model -> ds -> model
+        let Ok(model) = hlist_from_ds(&list) else {
+            obs.inconclusive(format!("golden file {}: parser produced a node outside the model", g.name));
+            continue;
+        };
+        let again = hlist_from_ds(&hlist_to_ds(&model));
+        if again.as_ref().ok().map(|a| hlist_diff(&model, a, "list").is_none()) != Some(true) || again.ok().as_ref() != Some(&model) {
+            obs.inconclusive(format!("golden file {}: model <-> ds conversion is not lossless", g.name));
+            continue;
+        }
+        // 2. the deep comparison sees a planted difference
+        if !model.is_empty() {
+            let mut changed = model.clone();
+            let i = changed.len() - 1;
+            changed[i] = H::Penalty(123456);
+            if hlist_diff(&model, &changed, "list").is_none() {
+                obs.inconclusive("deep comparison missed a planted difference");
+            }
+        }
+        // 3. glue ratios: the strings in the golden (from TeX's "glue set" output) against our reading
+        let mut ratios = vec![];
+        collect_ratios(&model, &mut ratios);
+        let mut strings = vec![];
+        for line in g.text.lines() {
+            if let Some(p) = line.find("glue_ratio=\"") {
+                let rest = &line[p + 12..];
+                if let Some(q) = rest.find('"') {
+                    strings.push(&rest[..q]);
+                }
+            }
+        }
+        if strings.len() != ratios.len() {
+            obs.inconclusive(format!("golden file {}: {} glue_ratio strings but {} hboxes", g.name, strings.len(), ratios.len()));
+            continue;
+        }
+        // document order of hboxes is pre-order in both
+        for (s, (n, d)) in strings.iter().zip(&ratios) {
+            match decimal_units(s) {
+                Some(u) if (u - ratio_units(*n, *d)).abs() <= 1 + (u >> 22) => obs.count("calibration_glue_ratios_agree"),
+                _ => {
+                    obs.inconclusive(format!("golden file {}: glue ratio \"{s}\" read as {n}/{d} disagrees with the model", g.name));
+                    break;
+                }
+            }
+        }
+        // 4. re-layout keeps a small printed golden fragment a valid program for the same list
+        if let Some(first) = model.first() {
+            let frag = vec![shrink_fragment(&mut rng, first)];
+            let text = print_list_level(&hlist_to_ds(&frag));
+            let s = textgen::relayout(&mut rng, &text, true);
+            match catch(|| bwl::parse_horizontal_list(&s).map_err(|e| e.len())) {
+                Ok(Ok(v)) if hlist_from_ds(&v).ok().map(|b| hlist_diff(&frag, &b, "list").is_none()) == Some(true) => {
+                    obs.count("calibration_relayout_ok")
+                }
+                _ => obs.inconclusive(format!("re-layout of a fragment of {} no longer parses to the same list", g.name)),
+            }
+        }
+    }
+    if decimal_units("0.22156") != Some(14520) || decimal_units("16383.99998") != Some((1 << 30) - 1) || decimal_units("1.0") != Some(65536) {
+        obs.inconclusive("decimal reader wrong on known values");
+    }
+    // trigger predicates
+    let t = textgen::has_integer_overflow("penalty(2147483648)")
+        && !textgen::has_integer_overflow("penalty(2147483647)")
+        && textgen::has_unit_multiplication_overflow("kern(32768sp)")
+        && !textgen::has_unit_multiplication_overflow("kern(32767sp) penalty(99999)")
+        && textgen::may_have_dimension_overflow("kern(227in)")
+        && textgen::has_unicode_escape_overflow("\"\\u{123456789}\"")
+        && !textgen::has_unicode_escape_overflow("\"\\u{10ffff}\"")
+        && textgen::has_unicode_escape_without_brace("\"\\ux\"")
+        && !textgen::has_unicode_escape_without_brace("\"\\u{41}\"");
+    if t {
+        obs.count("calibration_trigger_predicates_ok");
+    } else {
+        obs.inconclusive("trigger predicates wrong on known inputs");
+    }
 }
